@@ -67,6 +67,8 @@ def _task(args):
     ob_d, pins, tolerate = args
     ensure_env()
     t0 = time.time()
+    if not os.environ.get("VERIF_KEEP_STDOUT"):
+        sys.stdout = open(os.devnull, "w")     # the code under test prints progress tables
     try:
         from symx import driver
         fn = resolve(ob_d["func"])
@@ -107,6 +109,8 @@ def replay_file(path, profile=False, tolerate=()):
     cmd = [PY, os.path.join(VERIF, "check"), "--replay-internal", path]
     if profile:
         cmd.append("--profile")
+    if tolerate:
+        cmd += ["--tolerate", ",".join(tolerate)]
     env = dict(os.environ)
     env["PYTHONHASHSEED"] = env.get("PYTHONHASHSEED", "0")
     try:
@@ -243,7 +247,7 @@ def run_property(prop, obligations, tier, seed=0, workers=None, assumptions=(), 
                 jobs.append(("cex", ob.name, code, path))
     from concurrent.futures import ThreadPoolExecutor
     with ThreadPoolExecutor(max_workers=workers) as tp:
-        futs = [(j, tp.submit(replay_file, j[3], j[0] == "witness")) for j in jobs]
+        futs = [(j, tp.submit(replay_file, j[3], j[0] == "witness", tolerate if j[0] == "witness" else ())) for j in jobs]
         replayed = {(j[0], j[1], j[2]): (j[3], f.result()) for j, f in futs}
 
     for ob in obligations:
